@@ -1,6 +1,7 @@
 (* C19 — EagerBatcher partitions its input and waits no longer than told.
    Only statements here; proofs are in Proof/EagerBatcherProof.v. *)
-From MpV Require Import Model.EagerBatcher Proof.EagerBatcherProof.
+From MpV Require Import Model.EagerBatcher Proof.EagerBatcherProof Proof.EagerBatcherTime.
+From Coq Require Import Sorted.
 
 (* For every batch size >= 1, wait >= 0 and every arrival sequence (any times, any length):
    the concatenation of the emitted batches is exactly the items before the end marker. *)
@@ -24,6 +25,25 @@ Theorem C19_eb_finishes_iff_end : forall g arr,
   cfg_ok g -> (fst (run g arr) = Finished <-> has_end arr = true).
 Proof. exact run_status. Qed.
 Print Assumptions C19_eb_finishes_iff_end.
+
+(* "Waits no longer than told", as an upper bound for every batch whatever made it go out: a
+   batch is yielded at most [wait] after its first item left the queue - also when it is
+   full or cut short by the end marker.  [first_t] is compared with the implementation by the
+   correspondence check (the clock at which the virtual queue handed out the batch's first
+   item), like [items] and [etime]. *)
+Theorem C19_eb_waits_no_longer_than_told : forall g arr,
+  cfg_ok g ->
+  Forall (fun b => first_t b <= etime b <= first_t b + wait g) (snd (run g arr)).
+Proof. exact run_wait_bound. Qed.
+Print Assumptions C19_eb_waits_no_longer_than_told.
+
+(* The yields happen in clock order, and the first item of each batch is taken from the queue
+   at or after the previous yield (no item is fetched ahead of the batch before it). *)
+Theorem C19_eb_yields_in_clock_order : forall g arr,
+  cfg_ok g ->
+  Sorted Z.le (map etime (snd (run g arr))) /\ starts_after 0 (snd (run g arr)).
+Proof. exact run_yields_in_clock_order. Qed.
+Print Assumptions C19_eb_yields_in_clock_order.
 
 (* Non-vacuity: a concrete run exercising full, timed-out and end-flushed batches. *)
 Example C19_example :
